@@ -327,6 +327,18 @@ fn compare(run: &Run) -> Option<(String, String)> {
             return Some(("unknown-datum".into(), format!("variant {} holds a datum id that was never issued: {:?}", vid, data)));
         }
     }
+    // lookups by id: every issued datum keeps its name, an id that was never issued finds nothing
+    for (h, id) in run.ids.iter().enumerate() {
+        let want = NAMES[m.names[h] as usize];
+        let got = run.real.datum_name(*id);
+        if got.as_deref() != Some(want) {
+            return Some(("lookup-by-id".into(), format!("datum {} was issued for name {:?} and is now named {:?}", id, want, got)));
+        }
+    }
+    let beyond = DatumId::from(run.ids.len());
+    if !run.ids.contains(&beyond) && run.real.datum_name(beyond).is_some() {
+        return Some(("lookup-by-id".into(), format!("datum id {} was never issued but can be looked up", beyond)));
+    }
     // no variant beyond the created ones
     let next = RecordVariantId::from(run.vids.len());
     if !run.vids.contains(&next) && run.real.variant_data(next).is_some() {
